@@ -82,14 +82,16 @@ var (
 	verifPatMu   sync.Mutex
 	verifPatKind string
 	verifPatPath string
+	verifPatNot  string
 	verifPatLeft int64
 )
 
 // VerifArmPattern makes the process die before the n-th mutation (counted from now) whose
-// kind equals kind and whose path contains substr. n <= 0 disarms.
-func VerifArmPattern(kind, substr string, n int64) {
+// kind equals kind and whose path contains substr (and, if not is set, does not contain
+// not). n <= 0 disarms.
+func VerifArmPattern(kind, substr, not string, n int64) {
 	verifPatMu.Lock()
-	verifPatKind, verifPatPath, verifPatLeft = kind, substr, n
+	verifPatKind, verifPatPath, verifPatNot, verifPatLeft = kind, substr, not, n
 	verifPatMu.Unlock()
 }
 
@@ -97,6 +99,9 @@ func verifPatternHit(kind, path string) bool {
 	verifPatMu.Lock()
 	defer verifPatMu.Unlock()
 	if verifPatLeft <= 0 || kind != verifPatKind || !strings.Contains(path, verifPatPath) {
+		return false
+	}
+	if verifPatNot != "" && strings.Contains(path, verifPatNot) {
 		return false
 	}
 	verifPatLeft--
